@@ -366,14 +366,15 @@ def ubuf(elem, size_ty, name, lead=(), form="structure"):
     return t.shaped("ubuf", kids, form=form)
 
 
-def table(entries, name=None, hash_kind=("hash", 0)):
-    """entries: list of (Ty, id, active). hash_kind: ("hash", n) | ("ns", "name") | ("plain",)"""
+def table(entries, name=None, hash_kind=("hash", 0), inits=None):
+    """entries: list of (Ty, id, active). hash_kind: ("hash", n) | ("ns", "name") | ("plain",).
+    inits: optional list (parallel to entries) of default member initialisers ("{7u}") - a table whose default-constructed state is not all-empty"""
     nm = name or _fresh("T")
     lines, args, kids, sch, tov, frm, ids, act, descs = [], [], [], [], [], [], [], [], []
     for i, (ty, eid, active) in enumerate(entries):
         f = "e%d" % i
         if active:
-            lines.append("  nop::Entry<%s, %d> %s;" % (ty.cpp, eid, f))
+            lines.append("  nop::Entry<%s, %d> %s%s;" % (ty.cpp, eid, f, (inits[i] or "") if inits else ""))
             tov.append("ToVal(x.%s)" % f)
             frm.append("FromVal(v.kids[%d], &x->%s);" % (i, f))
         else:
